@@ -122,10 +122,14 @@ def pl_frame_case(v, arrangement, N, opts):
     req_b = True if opts.get("b_required_concrete", True) else v.bool("req_b")
     ca = O.CheckSpec(opts.get("check_a", "ge"), opts.get("ina", True), a=lo, b=lo)
     cb = O.CheckSpec("isin", True, set=[1, 2, 3])
+    extra_checks = []
+    if opts.get("scalar_check"):  # a check whose output is one boolean for the whole column, next to the row-level check
+        flag_s = v.bool("scalar_ok")
+        extra_checks.append(Check(lambda data: bool(flag_s), name="scalar_check"))
     with warnings.catch_warnings():
         warnings.simplefilter("ignore")
         schema = ppl.DataFrameSchema(
-            {"a": ppl.Column(float, checks=[ca.build(Check)], nullable=nullable, unique=unique_a, coerce=(coerce == "col"),
+            {"a": ppl.Column(float, checks=[ca.build(Check)] + extra_checks, nullable=nullable, unique=unique_a, coerce=(coerce == "col"),
                              default=(None if default is None else default)),
              "b": ppl.Column(int, checks=[cb.build(Check)], required=req_b, default=(1 if opts.get("add_missing") else None)),
              **({"_rid": ppl.Column(int)} if opts.get("drop") else {})},  # row identifiers are a declared column: they survive filter/add_missing
@@ -312,22 +316,57 @@ def pl_column_case(v, N, opts):
     """ppl.Column(...).validate(frame): container kind (C04), channel (C06), verdict at the effective depth"""
     a_kind = "int" if opts.get("coerce") else "float"
     lazyframe = bool(opts.get("lazyframe"))
-    df = v.plframe([("a", a_kind), ("b", "int")], N, lazy=lazyframe)
+    # the frame holds other columns as well (an integer one and a text one): a stand-alone Column concerns the column it names
+    arr = [("a", a_kind), ("b", "int"), ("s", "str")]
+    df = v.plframe(arr, N, lazy=lazyframe)
     snap = pl_snapshot(df)
     lo = v.int("aA")
-    col = ppl.Column(float, Check.ge(lo), name="a", nullable=v.bool("nullable"), unique=v.bool("unique_a"), coerce=bool(opts.get("coerce")),
-                     default=v.int("dflt") if opts.get("default") else None)
+    nullable, unique_a = v.bool("nullable"), v.bool("unique_a")
+    default = v.int("dflt") if opts.get("default") else None
+    col = ppl.Column(float, Check.ge(lo), name="a", nullable=nullable, unique=unique_a, coerce=bool(opts.get("coerce")), default=default)
     import tmpl
 
     cfg0 = tmpl.config_fingerprint()
     o = H.outcome(lambda: col.validate(df, lazy=bool(opts.get("lazy"))))
     asserts = [("channel", v.holds(channel_ok(o))), ("input_unchanged", pl_equal(v, df, snap)), ("config_unchanged", v.holds(tmpl.config_fingerprint() == cfg0))]
     facts = dict(kind=o["kind"], reason=o.get("reason"), _msg=o.get("msg"), container="LazyFrame" if lazyframe else "DataFrame")
+    if not lazyframe:
+        # a DataFrame is validated at full depth: accepted iff column a satisfies its constraints (after the default filled its nulls)
+        xa, na = v.cells("a_", a_kind, N, True)
+        R = lambda t: z3.ToReal(t) if z3.is_int(t) else t  # noqa: E731
+        filled = default is not None
+        nul = [F if filled else na[i] for i in range(N)]
+        val = [z3.If(na[i], R(v.z(default)), R(xa[i])) if filled else R(xa[i]) for i in range(N)]
+        eq = lambda i, j: z3.Or(z3.And(nul[i], nul[j]), z3.And(z3.Not(nul[i]), z3.Not(nul[j]), val[i] == val[j]))  # noqa: E731
+        ok = z3.And(*[z3.And(z3.Or(v.z(nullable), z3.Not(nul[i])), z3.Or(nul[i], val[i] >= R(v.z(lo))),
+                             z3.Or(z3.Not(v.z(unique_a)), z3.Not(zor_(eq(i, j) for j in range(N) if j != i)))) for i in range(N)]) if N else T
+        asserts.append(("verdict", v.iff(o["kind"] == "accept", ok)))
     if o["kind"] == "accept":
         out = o["out"]
         facts["out_kind"] = H.pl_kind(out) if H._is_pl(out) else type(out).__name__
         asserts.append(("kind_preserved", v.holds(same_kind(out, df))))
+        if H._is_pl(out):
+            asserts.append(("column/other_columns_unchanged", pl_equal_columns(v, out, snap, ["b", "s"])))
     return dict(obs=o, asserts=asserts, facts=facts)
+
+
+def pl_equal_columns(v, obj, snap, names):
+    """the named columns of obj are those of the snapshot: dtype, rows and cells"""
+    if snap[0] == "R":
+        a = obj.collect() if isinstance(obj, real_pl.LazyFrame) else obj
+        b = snap[1].collect() if isinstance(snap[1], real_pl.LazyFrame) else snap[1]
+        return all(k in a.columns and a[k].dtype == b[k].dtype and bool(a[k].equals(b[k], null_equal=True)) for k in names)
+    ref = {c[0]: c for c in snap[1]}
+    terms = []
+    for k in names:
+        c = obj.cols.get(k)
+        if c is None or str(c.dtype) != ref[k][4] or len(obj.present) != len(snap[2]):
+            return v.holds(False)
+        _, ys, ms, mm, _ = ref[k]
+        for i in range(len(snap[2])):
+            terms.append(obj.present[i] == snap[2][i])
+            terms.append(z3.Implies(snap[2][i], _cell_eq(c.vals[i], c.nulls[i], None if c.nans is None else c.nans[i], ys[i], ms[i], None if mm is None else mm[i])))
+    return v.holds(z3.And(*terms) if terms else T)
 
 
 # ------------------------------------------------------------------ fault schedules over user callbacks on polars (C06 b)
@@ -840,7 +879,7 @@ def lazy_cases(tier):
     out = []
     for N in ((2,) if tier == "quick" else (1, 2, 3)):
         for arr in (["a", "b"], ["a"], ["a", "b", "x"]):
-            for extra in (dict(), dict(strict=True), dict(unique=["a", "b"]), dict(coerce="col", a_kind="int")):
+            for extra in (dict(), dict(strict=True), dict(unique=["a", "b"]), dict(coerce="col", a_kind="int"), dict(scalar_check=True)):
                 if arr != ["a", "b"] and extra and "strict" not in extra:
                     continue
                 o = dict(lazy=True, compare_eager=True, fixpoint=False, **extra)
